@@ -167,6 +167,20 @@ CLAIMED['C18'] = {
             'read on a reachable path breaks the theorem; the differential then searches for a history that shows it.',
     'technique': 'Coq proof over a regenerated effect/call-graph summary (reachability closure by vm_compute, completeness by induction) + history differential',
 }
+CLAIMED['C19'] = {
+    'text': 'Theorems (Props/C19.v) about the hand model of error_html: for every value, escape_html_chars output contains no < or > '
+            'and a tag stripper recovers the value in any context; for every segment, delimiter triple (markup characters included), '
+            'line number, pending loop heading and error nodes with arbitrary messages, the text of a completed gen_seg call '
+            'stripped of tags is exactly: code-3 errors, heading, "<line>: <segment with every element and component>", then all '
+            'other segment and element errors of the nodes (minus the documented GE/GS suppression), and every tag in it is one of '
+            'the report\'s own; likewise the footer. The model is tied to error_html/err_iter by scripted differential runs (300 '
+            'scripts quick). Document level (one gen_seg call per source segment, in order, errors next to their segment) is checked '
+            'on the implementation with an independent stripper over the corpus and generated hostile documents.',
+    'design_ref': 'DESIGN.md §6 C19, §11',
+    'note': 'Trusted: Coq kernel; hand transcription Model/Html.v, ErrIter.v, Errh.v; Spec/C19_spec.v is my reading; extraction. '
+            'The document-level listing property is an oracle on the implementation, not yet a theorem.',
+    'technique': 'Coq proof (chunk calculus over the writer monad, 256-character sweeps for the escape function) + extracted-model correspondence + oracle',
+}
 
 NOT_YET = {
 }
